@@ -34,12 +34,19 @@ type mgrFix struct {
 	// readyErr is what the OnReady listener got
 	readyErr error
 	unsub    datatransfer.Unsubscribe
+	plain    bool // not inside a synctest bubble: wait for readiness on a channel
 }
 
 type mgrOpt func(*mgrFix)
 
 func withMonitor(cfg channelmonitor.Config) mgrOpt { return func(f *mgrFix) { f.mon = &cfg } }
 func withoutTypes() mgrOpt                         { return func(f *mgrFix) { f.val = nil } }
+func outsideBubble() mgrOpt                        { return func(f *mgrFix) { f.plain = true } }
+
+// newMgrFixPlain builds a fixture for tests that run on the real clock (no bubble).
+func newMgrFixPlain(c *vf.Case, self peer.ID, ds *doubles.RecDS) *mgrFix {
+	return newMgrFix(c, self, ds, outsideBubble())
+}
 
 func newMgrFix(c *vf.Case, self peer.ID, ds *doubles.RecDS, opts ...mgrOpt) *mgrFix {
 	if ds == nil {
@@ -76,11 +83,16 @@ func newMgrFix(c *vf.Case, self peer.ID, ds *doubles.RecDS, opts ...mgrOpt) *mgr
 		inner(ev, st)
 	})
 	var mu sync.Mutex
-	m.OnReady(func(e error) { mu.Lock(); f.readyErr = e; mu.Unlock() })
+	ready := make(chan struct{})
+	m.OnReady(func(e error) { mu.Lock(); f.readyErr = e; mu.Unlock(); close(ready) })
 	if err := m.Start(bg); err != nil {
 		panic(fmt.Sprintf("manager.Start: %v", err))
 	}
-	synctest.Wait()
+	if f.plain {
+		<-ready
+	} else {
+		synctest.Wait()
+	}
 	for _, e := range f.sub.Events() {
 		probeC19(c, "subscriber", e.Panic)
 	}
@@ -90,7 +102,9 @@ func newMgrFix(c *vf.Case, self peer.ID, ds *doubles.RecDS, opts ...mgrOpt) *mgr
 // stop stops the manager and waits for quiescence.
 func (f *mgrFix) stop() {
 	f.m.Stop(bg)
-	synctest.Wait()
+	if !f.plain {
+		synctest.Wait()
+	}
 }
 
 // reopen stops this manager and starts a fresh one (fresh doubles) on the same datastore.
